@@ -15,6 +15,8 @@ struct JsonParseResult {
 class RefJsonParser {
  public:
   explicit RefJsonParser(const std::string& text, bool useDouble = true) : s_(text), useDouble_(useDouble) {}
+  // dialect extensions of the library, off by default (RFC 8259 only)
+  bool allowNaN = false, allowInf = false;
 
   // parses exactly one value; trailing whitespace allowed, anything else is an error
   JsonParseResult parseDocument() {
@@ -74,6 +76,14 @@ class RefJsonParser {
       return kw("false", Val::boolean(false));
     if (c == 'n')
       return kw("null", Val::null());
+    if (allowNaN && c == 'N')
+      return kw("NaN", Val::flt(NAN));
+    if (allowInf && c == 'I')
+      return kw("Infinity", Val::flt(INFINITY));
+    if (allowInf && c == '-' && p_ + 1 < s_.size() && s_[p_ + 1] == 'I') {
+      p_++;
+      return kw("Infinity", Val::flt(-INFINITY));
+    }
     if (c == '-' || (c >= '0' && c <= '9'))
       return number();
     fail("unexpected byte");
@@ -313,6 +323,7 @@ class RefJsonParser {
 
 // ---------------------------------------------------------------- writer
 struct JsonSpelling {
+  bool nan = false, inf = false;  // spell non-finite numbers as NaN / Infinity (dialect), else null
   Rng* rng = nullptr;  // null: canonical compact spelling
   bool whitespace = false;
   bool escapes = false;   // \uXXXX for printable characters, \/ , mixed hex case
@@ -456,8 +467,12 @@ class RefJsonWriter {
         break;
     }
     double d = v.asDouble();
-    if (d != d || d == INFINITY || d == -INFINITY) {
-      out_ += "null";
+    if (d != d) {
+      out_ += sp_.nan ? "NaN" : "null";
+      return;
+    }
+    if (d == INFINITY || d == -INFINITY) {
+      out_ += sp_.inf ? (d < 0 ? "-Infinity" : "Infinity") : "null";
       return;
     }
     if (v.k == K::Float)
@@ -533,10 +548,12 @@ class RefJsonWriter {
 
 // What a conforming reader must obtain from the text the library writes for `v`:
 // raw values are replaced by what their text denotes, non-finite numbers by null.
-inline Val jsonImage(const Val& v, bool useDouble, bool* rawOk = nullptr) {
+inline Val jsonImage(const Val& v, bool useDouble, bool* rawOk = nullptr, bool keepNaN = false, bool keepInf = false) {
   switch (v.k) {
     case K::Raw: {
       RefJsonParser p(v.s, useDouble);
+      p.allowNaN = keepNaN;
+      p.allowInf = keepInf;
       auto r = p.parseDocument();
       if (!r.ok) {
         if (rawOk)
@@ -546,23 +563,23 @@ inline Val jsonImage(const Val& v, bool useDouble, bool* rawOk = nullptr) {
       return r.value;
     }
     case K::Float:
-      if (v.f != v.f || v.f == INFINITY || v.f == -INFINITY)
+      if ((v.f != v.f && !keepNaN) || ((v.f == INFINITY || v.f == -INFINITY) && !keepInf))
         return Val::null();
       return v;
     case K::Double:
-      if (v.d != v.d || v.d == INFINITY || v.d == -INFINITY)
+      if ((v.d != v.d && !keepNaN) || ((v.d == INFINITY || v.d == -INFINITY) && !keepInf))
         return Val::null();
       return v;
     case K::Arr: {
       Val o = Val::arr();
       for (auto& e : v.a)
-        o.a.push_back(jsonImage(e, useDouble, rawOk));
+        o.a.push_back(jsonImage(e, useDouble, rawOk, keepNaN, keepInf));
       return o;
     }
     case K::Obj: {
       Val o = Val::obj();
       for (auto& e : v.o)
-        o.o.emplace_back(e.first, jsonImage(e.second, useDouble, rawOk));
+        o.o.emplace_back(e.first, jsonImage(e.second, useDouble, rawOk, keepNaN, keepInf));
       return o;
     }
     default: {
